@@ -448,8 +448,7 @@ def parseSize (f : Bytes) : Except PyErr (Nat × Nat) :=
 
 /-- the loop `for i in range(num_objects)` of parse_full: `pos` = file position, `remaining` =
 `remaining_header` (a header size below 30 makes it negative: the first round fails just as with 0).
-A size field below 24 makes `payload_size` negative: `read` returns the rest of the file, whose
-length is not that number. -/
+A size field below 24 (negative `payload_size`) is refused as "invalid object size". -/
 def parseObjects (f : Bytes) : Nat → Nat → Nat → Except PyErr (List Obj)
   | 0, _, _ => .ok []
   | n + 1, pos, remaining =>
